@@ -144,3 +144,143 @@ func c01FetchRecursion(c *core.Check) {
 		r.Unknown("module | self-recursive functions reaching FetchSource", "-", "none found")
 	}
 }
+
+// c01LoaderCycles (R27): the same obligation for recursion that goes through a closure: an SVG image is parsed
+// with a loader for the images it embeds, and that loader loads SVG images.  In the call graph of package images
+// extended with "creates the closure" edges, every cycle that contains a call of a url fetcher has a member that
+// tests a set of urls in progress, returns when the url is in it, and adds the url before calling on into the cycle.
+func c01LoaderCycles(c *core.Check) {
+	p := c.Prog
+	r := c.Rule("R27", "image loaders do not load themselves: every cycle of package images' call graph (static calls and closure creations) that fetches a url contains a function that leaves on a Set.Has test and calls Set.Add before every call that stays in the cycle", 1)
+	var fns []*ssa.Function
+	for fn := range p.AllFuncs {
+		if fn.Pkg != nil && core.Rel(fn.Pkg.Pkg.Path()) == "images" && fn.Blocks != nil {
+			fns = append(fns, fn)
+		}
+	}
+	in := map[*ssa.Function]bool{}
+	for _, f := range fns {
+		in[f] = true
+	}
+	succ := map[*ssa.Function][]*ssa.Function{}
+	fetch := map[*ssa.Function]bool{}
+	for _, f := range fns {
+		core.Instrs(f, func(ins ssa.Instruction) {
+			switch x := ins.(type) {
+			case *ssa.MakeClosure:
+				if g, ok := x.Fn.(*ssa.Function); ok && in[g] {
+					succ[f] = append(succ[f], g)
+				}
+			case ssa.CallInstruction:
+				if g := x.Common().StaticCallee(); g != nil && in[g] {
+					succ[f] = append(succ[f], g)
+				} else if g == nil && !x.Common().IsInvoke() {
+					if nm, ok := x.Common().Value.Type().(interface{ String() string }); ok && (nm.String() == "github.com/benoitkugler/webrender/utils.UrlFetcher") {
+						fetch[f] = true
+					}
+				}
+			}
+		})
+	}
+	reach := func(a, b *ssa.Function) bool {
+		seen := map[*ssa.Function]bool{}
+		work := append([]*ssa.Function{}, succ[a]...)
+		for len(work) > 0 {
+			f := work[len(work)-1]
+			work = work[:len(work)-1]
+			if f == b {
+				return true
+			}
+			if seen[f] {
+				continue
+			}
+			seen[f] = true
+			work = append(work, succ[f]...)
+		}
+		return false
+	}
+	n := 0
+	done := map[*ssa.Function]bool{}
+	for _, f := range fns {
+		if done[f] || !fetch[f] || !reach(f, f) {
+			continue
+		}
+		// the cycle(s) through f
+		var members []*ssa.Function
+		for _, g := range fns {
+			if g == f || reach(f, g) && reach(g, f) {
+				members = append(members, g)
+				done[g] = true
+			}
+		}
+		n++
+		key := "images | cycle through " + core.FuncName(f)
+		guarded := false
+		for _, g := range members {
+			var hasBlk *ssa.BasicBlock
+			for _, b := range g.Blocks {
+				if len(b.Instrs) == 0 {
+					continue
+				}
+				if ifi, ok := b.Instrs[len(b.Instrs)-1].(*ssa.If); ok {
+					if call, ok := ifi.Cond.(*ssa.Call); ok {
+						if callee := call.Call.StaticCallee(); callee != nil && callee.Name() == "Has" {
+							hasBlk = b
+						}
+					}
+				}
+			}
+			if hasBlk == nil {
+				continue
+			}
+			// the true side returns without calling into the cycle
+			leaves := true
+			core.Instrs(g, func(ins ssa.Instruction) {
+				if !(ins.Block() == hasBlk.Succs[0] || hasBlk.Succs[0].Dominates(ins.Block())) {
+					return
+				}
+				if ci, ok := ins.(ssa.CallInstruction); ok {
+					if callee := ci.Common().StaticCallee(); callee != nil && in[callee] && reach(callee, g) {
+						leaves = false
+					}
+				}
+			})
+			// every call that stays in the cycle follows an Add
+			var adds []*ssa.Call
+			core.Instrs(g, func(ins ssa.Instruction) {
+				if call, ok := ins.(*ssa.Call); ok {
+					if callee := call.Call.StaticCallee(); callee != nil && callee.Name() == "Add" {
+						adds = append(adds, call)
+					}
+				}
+			})
+			allAfter := len(adds) > 0
+			core.Instrs(g, func(ins ssa.Instruction) {
+				ci, ok := ins.(ssa.CallInstruction)
+				if !ok {
+					return
+				}
+				callee := ci.Common().StaticCallee()
+				if callee == nil || !in[callee] || !reach(callee, g) {
+					return
+				}
+				after := false
+				for _, a := range adds {
+					if a.Block() == ins.Block() && a.Pos() < ins.Pos() || a.Block() != ins.Block() && a.Block().Dominates(ins.Block()) {
+						after = true
+					}
+				}
+				if !after {
+					allAfter = false
+				}
+			})
+			if leaves && allAfter {
+				guarded = true
+			}
+		}
+		r.Cond(guarded, key, p.Pos(f.Pos()), fmt.Sprintf("%d functions in the cycle, one of them keeps the set of urls in progress", len(members)), fmt.Sprintf("none of the %d functions of the cycle tests and fills a set of urls in progress: an SVG file whose <image> names the file itself is loaded until the stack is exhausted", len(members)))
+	}
+	if n == 0 {
+		r.Unknown("images | loader cycles", "-", "no cycle through a url fetcher found")
+	}
+}
